@@ -10,21 +10,27 @@
      dispatch_sound : forall gshape gaxes o args, Forall (wf_val gshape) args ->
        res_sound gshape args (run_op gshape gaxes o args) /\ no_raise o args (run_op gshape gaxes o args).
    What is proved (for EVERY batch size, grid assignment, shape and argument value):
-     - every single-operand operation that reaches the generic branch of ImageBatch.__torch_function__ (elementwise / casts /
-       clone, reductions, narrow, select, index_select, flip, roll, permute, expand, repeat, reshape, interpolation / pooling /
-       padding / conv, grid_sample, chunk, unbind, cumsum), provided it does not reorder or mix the batch dimension
-       (batch_aligned) -- this proviso is exactly what the two _refuted theorems show to be necessary;
-     - torch.cat of any number of image batches along the batch dimension and along any other dimension;
-     - torch.split (int and list), split_with_sizes, tensor_split (sections) along the batch dimension;
+     - every single-operand operation that reaches the generic branch of ImageBatch.__torch_function__ AND of
+       FlowFields.__torch_function__ (elementwise / casts / clone, reductions, narrow, select, index_select, flip, roll,
+       permute, expand, repeat, reshape, interpolation / pooling / padding / conv, grid_sample, chunk, unbind, cumsum),
+       provided it does not reorder or mix the batch dimension (batch_aligned) -- this proviso is exactly what the two
+       _refuted theorems show to be necessary; flow results keep the axes of the operand;
+     - elementwise operations with two tensor operands (ImageBatch / FlowFields / plain in any combination, broadcasting);
+     - torch.cat of any number of image batches along the batch dimension and along any other dimension; torch.stack;
+     - torch.split (int and list), split_with_sizes, tensor_split (sections and indices) along the batch dimension and
+       along any other dimension;
      - __getitem__ for EVERY form (int, slice, index list / tensor / array, boolean mask, Ellipsis, tuples), ImageBatch and
-       FlowFields; the narrow method along the batch dimension (also negative dim); __iter__; copy / deepcopy / pickle;
-     - programs of such steps of any length (induction over the operation list).
-   Covered by the correspondence and the implementation-side evaluation only (no theorem): binary operations with a second
-   tensor operand, stack, tensor_split(indices), splits along other dimensions, from_images / append / collate, the FlowFields
-   and single Image / FlowField dispatchers, ImageBatch.sample. *)
+       FlowFields; the narrow method along the batch dimension (also negative dim); __iter__; from_images / collate_samples of
+       any selection of items; append; copy / deepcopy / pickle;
+     - Image / FlowField dispatchers: a typed result carries the operand's grid, of the data's spatial shape, and its axes;
+     - programs of any length (induction over the operation list): for a syntactic family of steps, and in general for
+       any run whose steps satisfy the step theorems above.
+   Covered by the correspondence and the implementation-side evaluation only (no theorem): cat / split of FlowFields
+   (modelled, same code path as ImageBatch plus the axes test), n-ary operations mixing single images and batches,
+   ImageBatch.sample, the VALUES of converted flow vectors (append of other axes: value oracle on the implementation). *)
 From Coq Require Import String List ZArith Bool Arith Lia.
 From DV Require Import Model.Enums Model.Batch Model.BatchSpec Model.BatchPins Gen.BatchTables
-  Proofs.C19Base Proofs.C19Generic Proofs.C19Aligned Proofs.C19Cat Proofs.C19GetItem Proofs.C19Split Proofs.C19Prog Proofs.C19Refuted.
+  Proofs.C19Base Proofs.C19Generic Proofs.C19Aligned Proofs.C19Cat Proofs.C19GetItem Proofs.C19Split Proofs.C19Flow Proofs.C19Binary Proofs.C19Explicit Proofs.C19Single Proofs.C19Prog Proofs.C19Refuted.
 Import ListNotations.
 
 (* 0. the tables / conditions / method bodies the model transcribes are the ones in the source now *)
@@ -47,6 +53,42 @@ Proof.
                 (generic_no_raise gshape gaxes o s gs Hg Hwf)).
 Qed.
 Print Assumptions C19_dispatch_sound_partial.
+
+(* 1b. the same for a batch of flow fields (FlowFields.__torch_function__): FlowFields with the operand's axes, ImageBatch, or plain *)
+Theorem C19_flowfields_dispatch_sound_partial :
+  forall (gshape : gid -> shape) (gaxes : gid -> axes) (o : op) (s : shape) (ax : axes) (gs : list gid),
+  generic_op o = true -> batch_aligned o s = true ->
+  wf_val gshape (mkT s (TBatch (Some ax) gs)) ->
+  res_sound gshape [mkT s (TBatch (Some ax) gs)] (run_op gshape gaxes o [mkT s (TBatch (Some ax) gs)]).
+Proof.
+  exact (fun gshape gaxes o s ax gs Hg Hb Hwf => generic_flow_sound gshape gaxes o s ax gs Hg Hwf (batch_aligned_ok o s Hg Hb)).
+Qed.
+Print Assumptions C19_flowfields_dispatch_sound_partial.
+
+Theorem C19_flowfields_keep_axes :
+  forall (gshape : gid -> shape) (gaxes : gid -> axes) (o : op) (s : shape) (ax : axes) (gs : list gid) (d : dout)
+         (fl : option axes) (gs' : list gid),
+  generic_op o = true -> data_sem o [s] = DOne d ->
+  run_op gshape gaxes o [mkT s (TBatch (Some ax) gs)] = OOne (mkO (d_shape d) (TBatch fl gs') (d_src d)) ->
+  fl = None \/ fl = Some ax.
+Proof. exact generic_flow_axes. Qed.
+Print Assumptions C19_flowfields_keep_axes.
+
+(* 1c. elementwise operations with two tensor operands: batches of either class and plain tensors, broadcasting *)
+Theorem C19_binary_sound :
+  forall (gshape : gid -> shape) (gaxes : gid -> axes) (a b : tval),
+  nonsingle a -> nonsingle b -> wf_val gshape a -> wf_val gshape b ->
+  (is_batch (t_kind a) = true -> is_batch (t_kind b) = true -> ndim (t_shape a) = ndim (t_shape b)) ->
+  res_sound gshape [a; b] (run_op gshape gaxes OBinary [a; b]).
+Proof. exact binary_sound. Qed.
+Print Assumptions C19_binary_sound.
+
+(* 1d. Image / FlowField: a typed result carries the operand's grid (of the data's spatial shape) and its axes *)
+Theorem C19_single_dispatch_ok :
+  forall (gshape : gid -> shape) (gaxes : gid -> axes) (o : op) (s : shape) (fl : option axes) (g : gid),
+  generic_op o = true -> single_res_ok gshape fl g (run_op gshape gaxes o [mkT s (TSingle fl g)]).
+Proof. exact single_generic_ok. Qed.
+Print Assumptions C19_single_dispatch_ok.
 
 (* 2. "a result whose batch size or shape no longer matches the grids is a plain tensor" *)
 Theorem C19_mismatch_is_plain :
@@ -79,13 +121,29 @@ Theorem C19_cat_other_dim_sound :
 Proof. exact cat_other_dim_sound. Qed.
 Print Assumptions C19_cat_other_dim_sound.
 
-(* 3b. split (int / list of sizes), split_with_sizes, tensor_split (sections) along the batch dimension *)
+(* torch.stack: never a non-empty batch *)
+Theorem C19_stack_sound :
+  forall (gshape : gid -> shape) (gaxes : gid -> axes) (d : dimarg) (a : tval) (args : list tval),
+  all_image_batches gshape (a :: args) ->
+  res_sound gshape (a :: args) (run_op gshape gaxes (OStack d) (a :: args))
+  /\ (0 < nent (t_shape a) -> forall o, run_op gshape gaxes (OStack d) (a :: args) = OOne o -> v_kind o = TPlain).
+Proof. exact stack_sound. Qed.
+Print Assumptions C19_stack_sound.
+
+(* 3b. split (int / list of sizes), split_with_sizes, tensor_split (sections / indices) along the batch dimension *)
 Theorem C19_split_sound :
   forall (gshape : gid -> shape) (gaxes : gid -> axes) (o : op) (s : shape) (gs : list gid),
   split_dim0 o -> wf_val gshape (mkT s (TBatch None gs)) ->
   res_sound gshape [mkT s (TBatch None gs)] (run_op gshape gaxes o [mkT s (TBatch None gs)]).
 Proof. exact split_batch_dim_sound. Qed.
 Print Assumptions C19_split_sound.
+
+Theorem C19_split_other_dim_sound :
+  forall (gshape : gid -> shape) (gaxes : gid -> axes) (o : op) (s : shape) (gs : list gid),
+  split_other_dim o -> wf_val gshape (mkT s (TBatch None gs)) ->
+  res_sound gshape [mkT s (TBatch None gs)] (run_op gshape gaxes o [mkT s (TBatch None gs)]).
+Proof. exact split_other_dim_sound. Qed.
+Print Assumptions C19_split_other_dim_sound.
 
 (* 4. indexing: every form *)
 Theorem C19_getitem_sound :
@@ -116,6 +174,23 @@ Theorem C19_iter_sound :
 Proof. exact iter_pick_sound. Qed.
 Print Assumptions C19_iter_sound.
 
+(* 4b. explicit constructors *)
+Theorem C19_from_images_collate_sound :
+  forall (gshape : gid -> shape) (gaxes : gid -> axes) (how : buildkind) (fl : option axes) (sh : shape) (gs : list gid) (sel : list nat),
+  wf_val gshape (mkT sh (TBatch fl gs)) ->
+  res_sound gshape [mkT sh (TBatch fl gs)] (run_op gshape gaxes (OIterBuild how sel) [mkT sh (TBatch fl gs)]).
+Proof. exact iter_build_sound. Qed.
+Print Assumptions C19_from_images_collate_sound.
+
+Theorem C19_append_sound :
+  forall (gshape : gid -> shape) (gaxes : gid -> axes) (fl : option axes) (sh : shape) (gs : list gid)
+         (fl' : option axes) (sh' : shape) (gs' : list gid),
+  wf_val gshape (mkT sh (TBatch fl gs)) -> wf_val gshape (mkT sh' (TBatch fl' gs')) -> (fl = None \/ fl' = fl) ->
+  res_sound gshape [mkT sh (TBatch fl gs); mkT sh' (TBatch fl' gs')]
+    (run_op gshape gaxes OAppend [mkT sh (TBatch fl gs); mkT sh' (TBatch fl' gs')]).
+Proof. exact append_sound. Qed.
+Print Assumptions C19_append_sound.
+
 (* 5. copies: copy.copy, deepcopy and pickle preserve type, grids and axes for all four classes *)
 Theorem C19_copy_preserves :
   forall (gshape : gid -> shape) (gaxes : gid -> axes) (c : copykind) (v : tval),
@@ -134,6 +209,16 @@ Theorem C19_programs_sound_partial :
   wf_val gshape (fst final) /\ ginv grid_of final.
 Proof. exact (fun gshape gaxes grid_of steps => prog_sound gshape gaxes grid_of steps). Qed.
 Print Assumptions C19_programs_sound_partial.
+
+(* 6b. the same for ANY run whose steps are sound (every step theorem above can be plugged in) *)
+Theorem C19_programs_sound_general :
+  forall (gshape : gid -> shape) (gaxes : gid -> axes) (grid_of : nat -> gid)
+         (steps : list step) (cur : pval) (inputs : list pval) (final : pval),
+  ginv grid_of cur -> no_single cur -> Forall (fun p => ginv grid_of p /\ no_single p) inputs ->
+  steps_sound gshape gaxes (fst cur) (map fst inputs) steps ->
+  prun gshape gaxes cur inputs steps = Some final -> ginv grid_of final.
+Proof. exact (fun gshape gaxes grid_of steps => prog_sound_general gshape gaxes grid_of steps). Qed.
+Print Assumptions C19_programs_sound_general.
 
 (* 7. refutations of the full statement on the faithful model (each a concrete batch with distinct grids) *)
 Theorem C19_batch_reorder_refuted :
@@ -188,5 +273,10 @@ Example C19_nonvacuous :
               mkStep (OGetItem (GOne (IList [5; 0]%Z))) [RCur] 0] with
      | Some (v, pr) => t_kind v = TBatch None [2; 0] /\ pr = [[5]; [0]]
      | None => False
-     end.
+     end
+  (* two flow field batches added (typed, axes kept), a split into sections, a stack (plain) *)
+  /\ match run_op gsh2 gax OBinary [f3; f3] with OOne o => v_kind o | _ => TPlain end = TBatch (Some WORLD) [0; 1; 2]
+  /\ typed_pieces (run1 (OTSplitI [1] DNone) b3) = [[0]; [1; 2]]
+  /\ match run_op gsh2 gax (OStack DNone) [b3; b3] with OOne o => v_kind o | _ => TBatch None [] end = TPlain
+  /\ match run_op gsh2 gax (OUnary false) [mkT [2; 3; 4] (TSingle (Some GRID) 5)] with OOne o => v_kind o | _ => TPlain end = TSingle (Some GRID) 5.
 Proof. vm_compute. repeat split. Qed.
